@@ -123,7 +123,7 @@ def run_tlc(module: str, cfg: str, env: dict[str, str] | None = None, workers: i
         cmd += extra
     cmd.append(os.path.join(SPEC, module + ".tla"))
     e = dict(os.environ)
-    e["JAVA_TOOL_OPTIONS"] = (e.get("JAVA_TOOL_OPTIONS", "") + f" -Xmx{heap}").strip()
+    e["JAVA_TOOL_OPTIONS"] = (e.get("JAVA_TOOL_OPTIONS", "") + f" -Xmx{heap} -Xss256m").strip()
     if env:
         e.update(env)
     t0 = time.time()
